@@ -1,4 +1,6 @@
 import I18n.Lemmas.CheckPlurals
+import I18n.Generated.PluralGrammar
+import I18n.Spec.PluralY
 /-!
 # C07 — Plural-Forms diagnostics are truthful, and complete on the examined window
 
@@ -9,6 +11,12 @@ from lib/intexpr.py; the truthfulness theorem is a corollary of C05 (`codomain_s
 -/
 namespace I18n.Props.C07
 open I18n I18n.Py I18n.Plural I18n.CheckPlurals
+
+/-- **Header pattern pin.**  The regular expression `parse_plural_forms` searches with — dumped from the live
+    compiled pattern on every run — is the one the model's scanner was written for, with no flags. -/
+theorem header_regex_pin :
+    Generated.PluralGrammar.pluralFormsRegex = Spec.PluralY.pluralFormsRegex ∧
+    Generated.PluralGrammar.pluralFormsRegexFlags = 0 := by decide
 
 /-- what `analyse` hands to `gapRanges` -/
 def completedOf (st : WinState) (fin : WinEnd) : Option Preimage :=
